@@ -12,7 +12,7 @@ use crate::ctl::{self, explore};
 use crate::world::{self, EndState, Msg, Scenario};
 use crate::{Acc, thread_root};
 use serde_json::{Value, json};
-use std::collections::{BTreeMap, BTreeSet, HashMap};
+use std::collections::{BTreeMap, BTreeSet, HashMap, HashSet};
 use std::sync::Mutex;
 use tokio::verif::{Ev, OpKind};
 use vcore::*;
@@ -170,6 +170,112 @@ pub fn lock_program(e: &EndState, mi: usize) -> Vec<String> {
     prog
 }
 
+/// per-task operation sequences (on the server's named locks) of message index `mi`, from a
+/// solo run: `(task id, is main loop, ops)`; ops are ("acq"|"rel"|"spawn", lock name | child task, n)
+pub fn task_programs(e: &EndState, mi: usize) -> Vec<(usize, bool, Vec<(String, String, u32)>)> {
+    let mut order: Vec<usize> = Vec::new();
+    let mut progs: HashMap<usize, Vec<(String, String, u32)>> = HashMap::new();
+    let mut main: Option<usize> = None;
+    walk_events(&e.events, |ev, m| {
+        if main.is_none() {
+            if let Ev::Spawn { parent: None, task } = ev {
+                main = Some(*task);
+            }
+        }
+        if m != Some(mi) {
+            return;
+        }
+        let mut push = |t: usize, op: (String, String, u32)| {
+            if !order.contains(&t) {
+                order.push(t);
+            }
+            progs.entry(t).or_default().push(op);
+        };
+        match ev {
+            Ev::Acquired { task: Some(t), obj, n } if named(&e.names, *obj) => push(*t, ("acq".into(), obj_name(&e.names, *obj), *n as u32)),
+            Ev::Freed { task: Some(t), obj, n } if named(&e.names, *obj) => push(*t, ("rel".into(), obj_name(&e.names, *obj), *n as u32)),
+            Ev::Spawn { parent: Some(p), task } => push(*p, ("spawn".into(), task.to_string(), 0)),
+            _ => {}
+        }
+    });
+    order.into_iter().map(|t| (t, Some(t) == main, progs.remove(&t).unwrap_or_default())).collect()
+}
+
+/// Builds the model of a subset: one main-loop process running the inline parts of the messages
+/// in order, plus every task they spawn.
+fn build_system(parts: &[(String, Vec<(usize, bool, Vec<(String, String, u32)>)>)]) -> crate::model::System {
+    use crate::model::Op;
+    let mut lock_names: Vec<String> = Vec::new();
+    let mut totals: Vec<u32> = Vec::new();
+    let mut progs: Vec<Vec<Op>> = vec![vec![]];
+    let mut proc_names: Vec<String> = vec!["main-loop".to_string()];
+    for (mname, tasks) in parts {
+        // process index of every task of this message
+        let mut idx: HashMap<usize, usize> = HashMap::new();
+        for (t, is_main, _) in tasks {
+            if *is_main {
+                idx.insert(*t, 0);
+            } else {
+                idx.insert(*t, progs.len());
+                progs.push(vec![]);
+                proc_names.push(format!("{mname}/t{t}"));
+            }
+        }
+        for (t, _, ops) in tasks {
+            let pi = idx[t];
+            for (kind, what, n) in ops {
+                let op = match kind.as_str() {
+                    "spawn" => {
+                        let child: usize = what.parse().unwrap_or(usize::MAX);
+                        match idx.get(&child) {
+                            Some(c) => Op::Spawn(*c),
+                            None => continue, // a task that never touched a named lock
+                        }
+                    }
+                    k => {
+                        let li = match lock_names.iter().position(|l| l == what) {
+                            Some(i) => i,
+                            None => {
+                                lock_names.push(what.clone());
+                                totals.push(if what == "analysis" || what == "workspace_manager" { 536_870_911 } else { 1 });
+                                lock_names.len() - 1
+                            }
+                        };
+                        if *n > totals[li] {
+                            totals[li] = *n;
+                        }
+                        if k == "acq" { Op::Acq(li, *n) } else { Op::Rel(li, *n) }
+                    }
+                };
+                progs[pi].push(op);
+            }
+        }
+    }
+    // sound reduction: operations on a lock that can never block in this instance are dropped —
+    // a lock no process takes exclusively (readers only), or a lock a single process uses
+    let nl = lock_names.len();
+    let mut users: Vec<HashSet<usize>> = vec![HashSet::new(); nl];
+    let mut exclusive = vec![false; nl];
+    for (pi, prog) in progs.iter().enumerate() {
+        for op in prog {
+            if let Op::Acq(l, n) = op {
+                users[*l].insert(pi);
+                if *n >= totals[*l] {
+                    exclusive[*l] = true;
+                }
+            }
+        }
+    }
+    let keep: Vec<bool> = (0..nl).map(|l| exclusive[l] && users[l].len() > 1).collect();
+    for prog in progs.iter_mut() {
+        prog.retain(|op| match op {
+            Op::Acq(l, _) | Op::Rel(l, _) => keep[*l],
+            Op::Spawn(_) => true,
+        });
+    }
+    crate::model::System { lock_names, totals, progs, roots: vec![0], proc_names }
+}
+
 #[derive(Default)]
 struct Monitor {
     /// held -> requested, with one example (message kind) per edge
@@ -308,6 +414,7 @@ pub fn run(args: &Args) -> ! {
 
     // ---- (1) solo runs: lock programs and the menu
     let mut programs: Vec<(String, Vec<String>)> = Vec::new();
+    let mut solo_tasks: Vec<Vec<(usize, bool, Vec<(String, String, u32)>)>> = Vec::new();
     let mut menu: Vec<usize> = Vec::new();
     let mut same_program: Vec<(String, String)> = Vec::new();
     let all: Vec<usize> = (0..cands.len()).collect();
@@ -315,6 +422,7 @@ pub fn run(args: &Args) -> ! {
         let (scn, kinds) = scenario_for(&cands, &all, &[i], false);
         let e = world::run(&scn, &[], &thread_root(args));
         let prog = lock_program(&e, 1);
+        solo_tasks.push(task_programs(&e, 1));
         monitor_exec(&e, &kinds, &mut mon.lock().unwrap());
         // joins the menu: holds two locks at once somewhere (can be part of a circular wait), or
         // write-locks an RwLock (a queued writer blocks later readers under fair queueing)
@@ -347,6 +455,100 @@ pub fn run(args: &Args) -> ! {
             acc.with(|st| st.violation(Violation { signature: "deadlock".into(), witness: json!({"messages": [name], "pull": false}), detail: format!("solo run, default schedule: {d}") }));
         }
         programs.push((name.clone(), prog));
+    }
+
+    // ---- (1b) second stage: explicit-state model of the recorded programs, all interleavings,
+    // validated against real tokio primitives (see model.rs)
+    let model_k = args.tier.pick(3usize, 4usize);
+    let mut model_states = 0u64;
+    let mut model_transitions = 0u64;
+    let mut model_instances = 0u64;
+    let mut model_capped = 0u64;
+    let mut traces_validated = 0u64;
+    let mut conformance_mismatch: Option<String> = None;
+    {
+        let model_deadlocks: Mutex<Vec<(Vec<String>, Vec<usize>, crate::model::System)>> = Mutex::new(Vec::new());
+        let mut insts: Vec<Vec<usize>> = Vec::new();
+        for k in 1..=model_k {
+            insts.extend(subsets(menu.len(), k));
+        }
+        let counters = Mutex::new((0u64, 0u64, 0u64, 0u64, 0u64, None::<String>));
+        let model_dl = Deadline::after_secs((args.wall_cap_s * 0.4).max(5.0));
+        let (_st, _done) = par_range(insts.len() as u64, args.threads, &model_dl, |i, _st| {
+            let subset = &insts[i as usize];
+            let parts: Vec<(String, Vec<(usize, bool, Vec<(String, String, u32)>)>)> = subset.iter().map(|m| (cands[menu[*m]].0.clone(), solo_tasks[menu[*m]].clone())).collect();
+            let sys = build_system(&parts);
+            let r = crate::model::search(&sys, args.tier.pick(50_000, 3_000_000));
+            let mut validated = 0u64;
+            let mut mismatch = None;
+            // conformance on small instances: every maximal trail (capped) replayed on real tokio locks
+            if subset.len() <= 2 {
+                for trail in crate::model::maximal_trails(&sys, args.tier.pick(40, 400)) {
+                    let want = crate::model::model_observations(&sys, &trail);
+                    match crate::model::replay_on_tokio(&sys, &trail) {
+                        Ok(got) if got == want => validated += 1,
+                        Ok(got) => {
+                            let at = got.iter().zip(&want).position(|(a, b)| a != b).unwrap_or(0);
+                            mismatch = Some(format!("{:?}: trail {:?} step {}: real tokio {:?} vs model {:?}", parts.iter().map(|p| &p.0).collect::<Vec<_>>(), trail, at, got.get(at), want.get(at)));
+                        }
+                        Err(e) => mismatch = Some(format!("{:?}: trail {:?}: {e}", parts.iter().map(|p| &p.0).collect::<Vec<_>>(), trail)),
+                    }
+                }
+            }
+            if let Some(trail) = &r.deadlock_trail {
+                model_deadlocks.lock().unwrap().push((parts.iter().map(|p| p.0.clone()).collect(), trail.clone(), sys.clone()));
+            }
+            let mut c = counters.lock().unwrap();
+            c.0 += r.states;
+            c.1 += r.transitions;
+            c.2 += 1;
+            c.3 += r.capped as u64;
+            c.4 += validated;
+            if c.5.is_none() {
+                c.5 = mismatch;
+            }
+        });
+        let c = counters.into_inner().unwrap();
+        model_states = c.0;
+        model_transitions = c.1;
+        model_instances = c.2;
+        model_capped = c.3;
+        traces_validated = c.4;
+        conformance_mismatch = c.5;
+        // minimal deadlocking subsets only, each confirmed on the real primitives before it is reported
+        let mut dls = model_deadlocks.into_inner().unwrap();
+        dls.sort_by_key(|d| (d.0.len(), d.0.clone()));
+        let mut reported: Vec<Vec<String>> = Vec::new();
+        for (names, trail, sys) in dls {
+            if reported.iter().any(|r| r.iter().all(|n| names.contains(n))) {
+                continue;
+            }
+            let want = crate::model::model_observations(&sys, &trail);
+            match crate::model::replay_on_tokio(&sys, &trail) {
+                Ok(got) if got == want && !got.last().map(|o| o.1.is_empty()).unwrap_or(true) => {
+                    traces_validated += 1;
+                    let blocked: Vec<String> = got.last().unwrap().1.iter().map(|p| sys.proc_names[*p].clone()).collect();
+                    let steps: Vec<String> = trail.iter().map(|p| sys.proc_names[*p].clone()).collect();
+                    acc.with(|st| {
+                        st.violation(Violation {
+                            signature: "model-deadlock".into(),
+                            witness: json!({"messages": names, "_trail": steps}),
+                            detail: format!("all interleavings of the recorded lock programs: after steps {steps:?} the processes {blocked:?} are blocked forever; reproduced on real tokio RwLock/Mutex objects"),
+                        })
+                    });
+                    reported.push(names);
+                }
+                Ok(_) | Err(_) => {
+                    if conformance_mismatch.is_none() {
+                        conformance_mismatch = Some(format!("model deadlock of {names:?} did not reproduce on real tokio primitives"));
+                    }
+                }
+            }
+        }
+    }
+    if let Some(m) = &conformance_mismatch {
+        // the model does not describe the implementation: that is a machinery error, not a verdict
+        rep.machinery_error = Some(format!("C28 model/implementation conformance failed: {m}"));
     }
 
     // ---- (2) subsets of the menu, sizes 1..=kmax, all schedules to the bound
@@ -480,11 +682,12 @@ pub fn run(args: &Args) -> ! {
     );
     rep.exhaustive = !capped && completed_k == kmax && bound_completed == bound && tot.horizon_hits == 0;
     rep.bounds = json!({"subset_size_target": kmax, "subset_size_completed_at_last_bound": completed_k, "preemption_bound_completed_for_all_subsets": bound_completed, "preemption_bound": bound, "scenarios": scenarios, "per_scenario_execution_cap": args.tier.pick(4_000, 400_000), "capped": capped, "horizon_hits": tot.horizon_hits});
-    rep.set("states", json!(tot.states));
-    rep.set("transitions", json!(tot.decisions));
+    rep.set("states", json!(tot.states + model_states));
+    rep.set("transitions", json!(tot.decisions + model_transitions));
     rep.set("decision_points_pruned_by_state_matching", json!(tot.pruned));
-    rep.set("traces_validated_against_impl", json!(tot.executions));
+    rep.set("traces_validated_against_impl", json!(tot.executions + traces_validated));
     rep.set("schedules", json!(tot.executions));
+    rep.set("model_stage", json!({"instances": model_instances, "max_subset_size": model_k, "states": model_states, "transitions": model_transitions, "instances_capped": model_capped, "traces_validated_against_real_tokio": traces_validated}));
     rep.set("menu", json!(menu_names));
     rep.set("same_lock_program_as", json!(same_program));
     rep.set("lock_programs", json!(programs.iter().map(|(n, p)| json!({"message": n, "program": p})).collect::<Vec<_>>()));
